@@ -78,6 +78,10 @@ func Unpack(any *anypb.Any, fileResolver protodesc.Resolver, typeResolver protor
 		typeResolver = protoregistry.GlobalTypes
 	}
 
+	if any == nil {
+		return nil, fmt.Errorf("cannot unpack a nil Any")
+	}
+
 	url := any.TypeUrl
 	typ, err := typeResolver.FindMessageByURL(url)
 	if err == protoregistry.NotFound {
@@ -96,7 +100,14 @@ func Unpack(any *anypb.Any, fileResolver protodesc.Resolver, typeResolver protor
 			return nil, fmt.Errorf("protoFiles does not have descriptor %s: %w", any.TypeUrl, err)
 		}
 
-		typ = dynamicpb.NewMessageType(msgDesc.(protoreflect.MessageDescriptor))
+		// the file resolver finds every kind of declaration (enums, services, fields, ...): only a
+		// message descriptor names a type that an Any can hold
+		md, ok := msgDesc.(protoreflect.MessageDescriptor)
+		if !ok {
+			return nil, fmt.Errorf("%s does not name a message type (found %T)", any.TypeUrl, msgDesc)
+		}
+
+		typ = dynamicpb.NewMessageType(md)
 
 	} else if err != nil {
 		return nil, err
